@@ -17,6 +17,11 @@ ABSTRACTS = {
     },
 }
 ABS_ISINSTANCE = {}
+# driver side: Lean parser (type `P <interface>`) per abstract interface; python encoders are in py2lean_selftest.py
+ABS_PARSERS = {
+    "AbsFormula": "(do let n ← int; pure (AbsFormula.mk n))",
+}
+DRIVER_IMPORTS = []
 
 ITEMS = [
     {"file": VARS, "class": "BlockOfVariables", "property": "C11",
